@@ -242,13 +242,11 @@ Proof.
 Qed.
 
 Lemma imports_resolve_no_inexact j sp conds :
-  in_scope_imports j sp = true -> snd (imports_resolve sp (parse_top j) conds) <> SInexact.
+  in_scope_imports j sp = true -> snd (imports_resolve sp (parse j) conds) <> SInexact.
 Proof.
   unfold in_scope_imports. intros H. apply andb_true_iff in H as [H Hkeys].
-  apply andb_true_iff in H as [H Hmix]. apply negb_true_iff in Hmix.
   destruct j as [| t | l | kvs |]; try (cbn; discriminate).
-  cbn [shape_imports_top_mixed] in Hmix. apply negb_false_iff in Hmix.
-  cbn [top_keys] in Hkeys. unfold parse_top. rewrite Hmix.
+  cbn [top_keys] in Hkeys.
   pose proof (imports_exports_no_inexact sp kvs slash_s true conds Hkeys) as HI.
   assert (Hp : parse (JObj kvs) = PObj (map pp kvs)
                  (isort_by less (filter (fun e => is_expansion_key (fst e)) (map pp kvs)))).
@@ -256,3 +254,6 @@ Proof.
   rewrite Hp, imports_resolve_obj. cbv zeta. rewrite <- Hp.
   match goal with |- snd (if ?c then _ else _) <> _ => destruct c end; [cbn; discriminate|exact HI].
 Qed.
+
+Lemma parse_root_imports_some j : j <> JNull -> parse_root_imports j = Some (parse j).
+Proof. intros H. unfold parse_root_imports. destruct j; try reflexivity. contradiction. Qed.
